@@ -1,3 +1,4 @@
+import RossModel.Lemmas.SourceTie
 import RossModel.Lemmas.FrameWF
 import RossModel.Lemmas.Cobs
 import RossModel.Lemmas.Usart
@@ -54,5 +55,9 @@ theorem C09_fromUsart_cases (enc : List UInt8) :
 example : fromUsart [0x0e, 0xa5, 0x55, 0x55, 0x55, 0x08, 0x55, 0x55, 0x55, 0x55, 0x55, 0x55, 0x55, 0x55] =
     .ok { notError := true, start := false, multi := true, idLast := false, fid := 0x555, addr := 0x5555, dataLen := 8,
           data := [0x55, 0x55, 0x55, 0x55, 0x55, 0x55, 0x55, 0x55] } := by decide
+
+/-! ### tie to the source text (constants regenerated from /repo by `bin/extract` on every run) -/
+/-- `to_usart_frame` / `from_usart_frame` in `src/frame.rs` use the shifts, masks and size numbers the model uses -/
+theorem C09_src_usart_codec : (SrcTie.toUsartOk && SrcTie.fromUsartOk) = true := by decide
 
 end Ross.Props
